@@ -23,7 +23,7 @@ Decoders == {"sfnt", "header", "cff", "cmap", "glyf", "GSUB", "GPOS", "GDEF", "c
              "classdef", "name", "head", "hmtx", "maxp", "os2", "post", "kern"}
 
 \* ------------------------------------------------------------------ the fault plan
-Kinds == <<"orig", "trunc", "word", "flip", "ff", "drop">>
+Kinds == <<"orig", "trunc", "word", "flip", "ff", "inc", "dec", "drop">>
 KindSet == {Kinds[i] : i \in DOMAIN Kinds}
 NumValues == 10
 \* the replacement values of kind "word": 0, 1, 2, 0x7FFF, 0x8000, 0xFFFE, 0xFFFF, len-1, len, len+1
@@ -36,10 +36,12 @@ WordValue(v, len) ==
 \*   trunc  every truncation length 0 .. mlen-1
 \*   word   every aligned 16-bit word that lies below mlen, replaced by WordValue(v, len)
 \*   flip   every byte below mlen with its top bit flipped;  ff: set to 0xFF
+\*   inc    every byte below mlen replaced by b+1 (mod 256);  dec: by b-1 -- the "value = count"
+\*          and "one less" boundary of byte-sized fields (FD indices, offSize, nLeft, formats)
 \*   drop   whole fonts: every table removed from the directory in turn
 Planned(s, kind) ==
   CASE kind = "orig" -> 1
-    [] kind \in {"trunc", "flip", "ff"} -> s.mlen
+    [] kind \in {"trunc", "flip", "ff", "inc", "dec"} -> s.mlen
     [] kind = "word" -> s.mlen \div 2
     [] kind = "drop" -> s.ntab
 
@@ -47,7 +49,7 @@ Cell(s, kind, v) == [seed |-> s.id, kind |-> kind, v |-> v, n |-> Planned(s, kin
 CellsOf(s) ==
   LET all == <<Cell(s, "orig", 0), Cell(s, "trunc", 0)>>
              \o [v \in 1..NumValues |-> Cell(s, "word", v)]
-             \o <<Cell(s, "flip", 0), Cell(s, "ff", 0), Cell(s, "drop", 0)>>
+             \o <<Cell(s, "flip", 0), Cell(s, "ff", 0), Cell(s, "inc", 0), Cell(s, "dec", 0), Cell(s, "drop", 0)>>
   IN SelectSeq(all, LAMBDA c : c.n > 0)
 
 RECURSIVE PlanFrom(_)
